@@ -285,3 +285,162 @@ func pathFree(u *an.Unit, s *an.Site, pre []*an.Site) bool {
 	}
 	return false
 }
+
+func init() {
+	old := registry["C09"].Run
+	registry["C09"].Run = func(c *Ctx) { old(c); runC09N45(c) }
+}
+
+// RangePairs checks every DeleteRange / range-iterator bound pair built by start/stop (min/max) key
+// encoders: both ends must be encoded from the same arguments. Shared by C09-N5, C12-K2 and C13.
+func RangePairs(c *Ctx, rule string) int {
+	r := c.R
+	n := 0
+	for _, fn := range c.P.Funcs() {
+		if load.ShortPkg(fn.Pkg.PkgPath) != "rockredis" || fn.Decl.Body == nil {
+			continue
+		}
+		u, err := c.W.Unit(fn.Name)
+		if err != nil {
+			continue
+		}
+		for _, s := range u.Match(an.Call("engine.WriteBatch.DeleteRange")) {
+			// (c) both ends are the precomputed range of one object: X.RangeStart / X.RangeEnd, X.Start / X.Limit
+			sa, oka := ast.Unparen(s.Call.Args[0]).(*ast.SelectorExpr)
+			sb, okb := ast.Unparen(s.Call.Args[1]).(*ast.SelectorExpr)
+			if oka && okb {
+				n++
+				same := u.C.Term(sa.X) == u.C.Term(sb.X)
+				r.Check(rule, fmt.Sprintf("%s: DeleteRange(%s, %s) uses the two ends of one range object", u.Name, u.C.Term(sa), u.C.Term(sb)), u.Pos(s.Pos), same, "")
+				continue
+			}
+			a, b := defCall(u, s.Call.Args[0]), defCall(u, s.Call.Args[1])
+			if a == nil || b == nil {
+				// locals copied from the two ends of one range object
+				da, db := defExpr(u, s.Call.Args[0]), defExpr(u, s.Call.Args[1])
+				if xa, ok := da.(*ast.SelectorExpr); ok {
+					if xb, ok := db.(*ast.SelectorExpr); ok {
+						n++
+						r.Check(rule, fmt.Sprintf("%s: DeleteRange(%s, %s) uses the two ends of one range object", u.Name, u.C.Term(xa), u.C.Term(xb)), u.Pos(s.Pos), u.C.Term(xa.X) == u.C.Term(xb.X), "")
+					}
+				}
+				continue
+			}
+			na, nb := an.CalleeName(a), an.CalleeName(b)
+			var ta, tb []string
+			for _, x := range a.Call.Args {
+				ta = append(ta, u.C.Term(x))
+			}
+			for _, x := range b.Call.Args {
+				tb = append(tb, u.C.Term(x))
+			}
+			switch {
+			case pairNames(na, nb):
+				n++
+				ok := strings.Join(ta, ",") == strings.Join(tb, ",")
+				r.Check(rule, fmt.Sprintf("%s: DeleteRange(%s, %s) addresses one collection on both ends", u.Name, shortName(na), shortName(nb)), u.Pos(s.Pos), ok,
+					fmt.Sprintf("start key from (%s), stop key from (%s)", strings.Join(ta, ", "), strings.Join(tb, ", ")))
+			case na == nb && len(ta) == len(tb) && len(ta) > 1:
+				n++
+				ok := strings.Join(ta[:len(ta)-1], ",") == strings.Join(tb[:len(tb)-1], ",")
+				r.Check(rule, fmt.Sprintf("%s: DeleteRange over %s positions of one collection", u.Name, shortName(na)), u.Pos(s.Pos), ok,
+					fmt.Sprintf("(%s) vs (%s)", strings.Join(ta, ", "), strings.Join(tb, ", ")))
+			}
+		}
+	}
+	return n
+}
+
+func shortName(q string) string {
+	if i := strings.LastIndex(q, "."); i >= 0 {
+		return q[i+1:]
+	}
+	return q
+}
+
+// pairNames: the two encoder names differ only by Start/Stop, Min/Max or Begin/End.
+func pairNames(a, b string) bool {
+	for _, p := range [][2]string{{"Start", "Stop"}, {"Min", "Max"}, {"Begin", "End"}, {"start", "stop"}} {
+		if strings.Contains(a, p[0]) && strings.Replace(a, p[0], p[1], 1) == b {
+			return true
+		}
+	}
+	return false
+}
+
+// defCall resolves an argument to the call that produced it (directly or through a local with one definition).
+func defCall(u *an.Unit, e ast.Expr) *an.Site {
+	e = ast.Unparen(e)
+	if call, ok := e.(*ast.CallExpr); ok {
+		for _, cs := range u.Sites {
+			if cs.Kind == flow.SCall && cs.Call == call {
+				return cs
+			}
+		}
+		return nil
+	}
+	id, ok := e.(*ast.Ident)
+	if !ok {
+		return nil
+	}
+	obj := u.Info().ObjectOf(id)
+	var def *an.Site
+	for _, st := range u.Sites {
+		if st.Kind == flow.SStore && st.Local == obj && !st.Index && st.RHS != nil {
+			if def != nil {
+				return nil
+			}
+			def = st
+		}
+	}
+	if def == nil {
+		return nil
+	}
+	return defCall(u, def.RHS)
+}
+
+// defExpr resolves a local with a single definition to its defining expression.
+func defExpr(u *an.Unit, e ast.Expr) ast.Expr {
+	e = ast.Unparen(e)
+	id, ok := e.(*ast.Ident)
+	if !ok {
+		return e
+	}
+	obj := u.Info().ObjectOf(id)
+	var def *an.Site
+	for _, st := range u.Sites {
+		if st.Kind == flow.SStore && st.Local == obj && !st.Index && st.RHS != nil {
+			if def != nil {
+				return e
+			}
+			def = st
+		}
+	}
+	if def == nil {
+		return e
+	}
+	return ast.Unparen(def.RHS)
+}
+
+func runC09N45(c *Ctx) {
+	r := c.R
+	r.Clause("C09-N4", "a failed command leaves no element behind without its size update (same obligations as C11-A3)")
+	sub := an.NewReport("C09")
+	c11A3(&Ctx{P: c.P, W: c.W, R: sub, Tier: c.Tier})
+	for _, ob := range sub.Obligations {
+		if ob.Rule != "C11-A3" {
+			continue
+		}
+		switch ob.Status {
+		case "ok":
+			r.Ok("C09-N4", ob.Construct, ob.Pos, ob.Detail)
+		case "VIOLATION":
+			r.Bad("C09-N4", ob.Construct, ob.Pos, ob.Detail)
+		default:
+			r.Unknown("C09-N4", ob.Construct, ob.Pos, ob.Detail)
+		}
+	}
+	r.Clause("C09-N5", "a range deletion of a collection's elements addresses that collection on both ends")
+	n := RangePairs(c, "C09-N5")
+	r.Min("C09-N5", n, 6, "DeleteRange calls with start/stop encoded bounds")
+}
